@@ -125,9 +125,38 @@ def run_runtime(scratch, prop, contracts, tier, seed, limit, cases=None):
     env["PYTHONPATH"] = os.pathsep.join([os.path.join(scratch, "repo"), ROOT, deps])
     env["ESVC_SCRATCH"] = scratch
     r = subprocess.run(args, cwd=scratch, env=env, capture_output=True, text=True, errors="replace")
+    if -r.returncode in (4, 6, 7, 8, 11):
+        crashed = _native_crash(scratch, out, -r.returncode, r.stderr)
+        if crashed is not None:
+            return crashed
     if r.returncode != 0 or not os.path.exists(out):
         raise RuntimeError("runtime evaluator failed: " + r.stdout[-1500:] + r.stderr[-3000:])
     return json.load(open(out))
+
+
+def _native_crash(scratch, out, signo, stderr):
+    """the evaluator was ended by SIGILL/ABRT/BUS/FPE/SEGV.  When the interpreter's fault handler shows that the innermost
+    Python frame is code of the package under test (a native call made by esutil itself, on a case of a bounded domain),
+    the case is reported as a violation of its contract: the call has no result.  Anything else stays a checker error."""
+    try:
+        mark = json.load(open(out + ".current"))
+    except (OSError, ValueError):
+        return None
+    frames = [l.strip() for l in stderr.splitlines() if l.strip().startswith('File "')]
+    inner = frames[0] if frames else ""
+    if os.path.join(scratch, "repo", "esutil") + os.sep not in inner:
+        return None
+    try:
+        done = json.load(open(out + ".partial"))
+    except (OSError, ValueError):
+        done = []
+    n = int(mark.get("index", 1))
+    text = "the process evaluating this case was ended by signal %d inside a native call made at %s" % (signo, inner.replace(scratch, "<scratch>"))
+    done.append(dict(contract=mark["contract"], cases=n, ok=max(0, n - 1), skipped=0, error=None, distinct=0, samples=[], crashed=True,
+                     violations=[dict(failures=[["the-call-returns", text]], inputs={"case": mark.get("case_key")}, result=None,
+                                      exception="signal %d" % signo, case_key=mark.get("case_key"), signature=None,
+                                      fault_handler_output=stderr[-3000:].replace(scratch, "<scratch>"))]))
+    return done
 
 
 # ------------------------------------------------------------------------------------------- findings / lock
